@@ -2,6 +2,7 @@
 // Oracle: ref/constructions.hpp, ref/aes256gcm.hpp, ref/aegis.hpp.
 #define VH_NO_SODIUM_INIT 1
 #include "vh_main.hpp"
+#include "giant.hpp"
 #include "constructions.hpp"
 #include "aes256gcm.hpp"
 #include "aegis.hpp"
@@ -283,9 +284,127 @@ void explore_large(Ctx &ctx) {
             auto masks = masks_for(cons, false);
             go(ctx, Case{ cons, ml, al, seed, 0, masks[i % masks.size()] }, i % masks.size() == 0);
         }
+    // messages around one, two and three MiB: an implementation that processes long inputs in pieces would use such a piece size
+    std::vector<size_t> big = { ((size_t) 1 << 20) + 1, ((size_t) 1 << 20) + 65, ((size_t) 1 << 21) + 17 };
+    if (ctx.thorough()) for (size_t l : { ((size_t) 1 << 20) - 1, (size_t) 1 << 20, ((size_t) 1 << 21) - 1, ((size_t) 3 << 20) + 5, ((size_t) 1 << 22) + 1, ((size_t) 1 << 16) + 1, ((size_t) 1 << 18) + 1 }) big.push_back(l);
+    for (int cons = 0; cons < SEAL_XSALSA; cons++)
+        for (size_t bi = 0; bi < big.size(); bi++) {
+            uint64_t seed = r.next();
+            if (cons == AESGCM && !ctx.thorough() && bi > 0) continue;
+            if (!ctx.mine(idx++)) continue;
+            auto masks = masks_for(cons, false);
+            go(ctx, Case{ cons, big[bi], (size_t) (seed % 40), seed, 0, masks[(bi + (size_t) cons) % masks.size()] }, true);
+        }
+}
+
+// ------------------------------------------------------------------ messages of 4 GiB and more (thorough tier, non-sanitizer build, first round)
+// One real buffer of 2^32 + 77 bytes is encrypted in place.  ChaCha20-Poly1305 (three variants) and the two secretboxes: windows of the
+// ciphertext around 2^32 and at the end against plaintext XOR the model keystream at that offset; the tag against a composition - one-time key
+// from the model, the MAC input of the construction fed through the library's streaming Poly1305 (its correctness over such lengths is C04's
+// claim).  AES-256-GCM: ciphertext windows against the model's counter mode at that block; AEGIS: the ciphertext of the first 1024 bytes equals
+// the ciphertext of that prefix alone.  All: decryption in place succeeds and restores the sampled plaintext windows.
+struct GMCase { int cons; size_t len; unsigned long mask; KV kv() const { KV k; k.s("kind", "giant").s("cons", CN[cons]).u("consi", cons).u("len", len).u("mask", mask); return k; } };
+uint64_t g_giant_skipped = 0;
+bool run_giant(const GMCase &c, std::string &msg) {
+    init_once(); set_mask(c.mask);
+    if (c.cons == AESGCM && !crypto_aead_aes256gcm_is_available()) return true;
+    if (!giant::have_memory(c.len)) { g_giant_skipped++; return true; }
+    giant::Map M(c.len); if (!M.ok()) { g_giant_skipped++; return true; }
+    M.fill(0xc01 + (uint64_t) c.cons);
+    Bytes key(KEYB[c.cons]), nonce(NONCEB[c.cons]), ad(37); for (size_t i = 0; i < key.size(); i++) key[i] = (uint8_t) (i * 13 + 2 + (size_t) c.cons); for (size_t i = 0; i < nonce.size(); i++) nonce[i] = (uint8_t) (0x90 + i); for (size_t i = 0; i < ad.size(); i++) ad[i] = (uint8_t) (i * 3 + 7);
+    bool sbox = c.cons == SBOX_XSALSA || c.cons == SBOX_XCHACHA, poly = c.cons <= XCHACHA || sbox;
+    const size_t G = (size_t) 1 << 32, L = c.len, sh = sbox ? 32 : 0;      // secretbox: the message keystream starts 32 bytes into block 0
+    std::vector<size_t> ws = { 0 + sh, 64 + sh, G - 128 + sh, G - 64 + sh, G + sh, (L - 1 - sh) / 64 * 64 + sh - 64, L / 2 / 64 * 64 + sh };
+    if (sbox) ws.push_back(0);
+    std::vector<Bytes> pts; for (size_t w : ws) pts.push_back(Bytes(M.p + w, M.p + w + std::min<size_t>(128, L - w)));
+    Bytes prefix(M.p, M.p + 1024);
+    unsigned char mac[32]; unsigned long long ml = 0; int r;
+    switch (c.cons) {
+    case CHACHA: r = crypto_aead_chacha20poly1305_encrypt_detached(M.p, mac, &ml, M.p, L, D(ad), ad.size(), nullptr, D(nonce), D(key)); break;
+    case CHACHA_IETF: r = crypto_aead_chacha20poly1305_ietf_encrypt_detached(M.p, mac, &ml, M.p, L, D(ad), ad.size(), nullptr, D(nonce), D(key)); break;
+    case XCHACHA: r = crypto_aead_xchacha20poly1305_ietf_encrypt_detached(M.p, mac, &ml, M.p, L, D(ad), ad.size(), nullptr, D(nonce), D(key)); break;
+    case AESGCM: r = crypto_aead_aes256gcm_encrypt_detached(M.p, mac, &ml, M.p, L, D(ad), ad.size(), nullptr, D(nonce), D(key)); break;
+    case AEGIS128L: r = crypto_aead_aegis128l_encrypt_detached(M.p, mac, &ml, M.p, L, D(ad), ad.size(), nullptr, D(nonce), D(key)); break;
+    case AEGIS256: r = crypto_aead_aegis256_encrypt_detached(M.p, mac, &ml, M.p, L, D(ad), ad.size(), nullptr, D(nonce), D(key)); break;
+    case SBOX_XSALSA: r = crypto_secretbox_detached(M.p, mac, M.p, L, D(nonce), D(key)); ml = 16; break;
+    default: r = crypto_secretbox_xchacha20poly1305_detached(M.p, mac, M.p, L, D(nonce), D(key)); ml = 16; break;
+    }
+    if (r != 0 || ml != TAGB[c.cons]) FAIL("%s: encrypting %zu bytes in place returned %d (tag length %llu)", CN[c.cons], L, r, ml);
+    // ---- ciphertext windows
+    Bytes sub, n12;
+    if (c.cons == XCHACHA) { sub = ref::hchacha20(key, Bytes(nonce.begin(), nonce.begin() + 16)); n12 = Bytes(4, 0); n12.insert(n12.end(), nonce.begin() + 16, nonce.end()); }
+    auto keystream = [&](size_t off, size_t n) -> Bytes {       // keystream of the construction's cipher at byte offset `off` (multiple of 64) of its stream
+        switch (c.cons) {
+        case CHACHA: return ref::chacha20_stream(key, nonce, off / 64, n);
+        case CHACHA_IETF: return ref::chacha20_ietf_stream(key, nonce, (uint32_t) (off / 64), n);
+        case XCHACHA: return ref::chacha20_ietf_stream(sub, n12, (uint32_t) (off / 64), n);
+        case SBOX_XSALSA: return ref::xsalsa20_stream(key, nonce, off / 64, n);
+        default: return ref::xchacha20_stream(key, nonce, off / 64, n);
+        }
+    };
+    if (poly) {
+        for (size_t i = 0; i < ws.size(); i++) {
+            size_t w = ws[i], n = pts[i].size();
+            size_t soff = sbox ? w + 32 : w + 64;                    // AEADs: block 0 is the one-time key, the message starts at block 1
+            Bytes ks = keystream(soff / 64 * 64, n + soff % 64); ks.erase(ks.begin(), ks.begin() + (long) (soff % 64));
+            for (size_t j = 0; j < n; j++) if (M.p[w + j] != (uint8_t) (pts[i][j] ^ ks[j])) FAIL("%s over %zu bytes: ciphertext byte %zu differs from plaintext XOR keystream (block %zu)", CN[c.cons], L, w + j, (soff + j) / 64);
+        }
+        // ---- tag by composition
+        Bytes otk = keystream(0, 32);
+        crypto_onetimeauth_state st; crypto_onetimeauth_init(&st, otk.data());
+        static const unsigned char zero[16] = { 0 }; unsigned char le[8]; unsigned char want[16];
+        auto le64 = [&](uint64_t v) { for (int i = 0; i < 8; i++) le[i] = (unsigned char) (v >> (8 * i)); crypto_onetimeauth_update(&st, le, 8); };
+        if (c.cons == CHACHA) { crypto_onetimeauth_update(&st, D(ad), ad.size()); le64(ad.size()); crypto_onetimeauth_update(&st, M.p, L); le64(L); }
+        else if (!sbox) { crypto_onetimeauth_update(&st, D(ad), ad.size()); crypto_onetimeauth_update(&st, zero, (16 - ad.size() % 16) % 16); crypto_onetimeauth_update(&st, M.p, L); crypto_onetimeauth_update(&st, zero, (16 - L % 16) % 16); le64(ad.size()); le64(L); }
+        else crypto_onetimeauth_update(&st, M.p, L);
+        crypto_onetimeauth_final(&st, want);
+        if (memcmp(want, mac, 16) != 0) FAIL("%s over %zu bytes: the tag differs from Poly1305(one-time key, MAC input of the construction) computed by composition", CN[c.cons], L);
+    } else if (c.cons == AESGCM) {
+        uint8_t rk[15][16]; ref::aes256_key_expand(key.data(), rk);
+        for (size_t i = 0; i < ws.size(); i++) {
+            size_t w = ws[i], n = pts[i].size(); uint8_t icb[16]; memcpy(icb, nonce.data(), 12); ref::st32be(icb + 12, (uint32_t) (2 + w / 16));
+            Bytes ct = ref::gcm_gctr(rk, icb, pts[i]);
+            if (memcmp(M.p + w, ct.data(), n) != 0) FAIL("aes256gcm over %zu bytes: ciphertext window at byte %zu differs from counter mode at block %zu", L, w, w / 16);
+        }
+    }
+    if (c.cons == AEGIS128L || c.cons == AEGIS256 || c.cons == AESGCM) {
+        Bytes pc(1024); unsigned char pm[32];
+        if (c.cons == AEGIS128L) crypto_aead_aegis128l_encrypt_detached(pc.data(), pm, &ml, prefix.data(), 1024, D(ad), ad.size(), nullptr, D(nonce), D(key));
+        else if (c.cons == AEGIS256) crypto_aead_aegis256_encrypt_detached(pc.data(), pm, &ml, prefix.data(), 1024, D(ad), ad.size(), nullptr, D(nonce), D(key));
+        else crypto_aead_aes256gcm_encrypt_detached(pc.data(), pm, &ml, prefix.data(), 1024, D(ad), ad.size(), nullptr, D(nonce), D(key));
+        if (memcmp(pc.data(), M.p, 1024) != 0) FAIL("%s over %zu bytes: the first 1024 ciphertext bytes differ from the ciphertext of that prefix alone", CN[c.cons], L);
+        if (memcmp(pm, mac, TAGB[c.cons]) == 0) FAIL("%s over %zu bytes: the tag equals the tag of the 1024-byte prefix", CN[c.cons], L);
+    }
+    // ---- decryption in place
+    switch (c.cons) {
+    case CHACHA: r = crypto_aead_chacha20poly1305_decrypt_detached(M.p, nullptr, M.p, L, mac, D(ad), ad.size(), D(nonce), D(key)); break;
+    case CHACHA_IETF: r = crypto_aead_chacha20poly1305_ietf_decrypt_detached(M.p, nullptr, M.p, L, mac, D(ad), ad.size(), D(nonce), D(key)); break;
+    case XCHACHA: r = crypto_aead_xchacha20poly1305_ietf_decrypt_detached(M.p, nullptr, M.p, L, mac, D(ad), ad.size(), D(nonce), D(key)); break;
+    case AESGCM: r = crypto_aead_aes256gcm_decrypt_detached(M.p, nullptr, M.p, L, mac, D(ad), ad.size(), D(nonce), D(key)); break;
+    case AEGIS128L: r = crypto_aead_aegis128l_decrypt_detached(M.p, nullptr, M.p, L, mac, D(ad), ad.size(), D(nonce), D(key)); break;
+    case AEGIS256: r = crypto_aead_aegis256_decrypt_detached(M.p, nullptr, M.p, L, mac, D(ad), ad.size(), D(nonce), D(key)); break;
+    case SBOX_XSALSA: r = crypto_secretbox_open_detached(M.p, M.p, mac, L, D(nonce), D(key)); break;
+    default: r = crypto_secretbox_xchacha20poly1305_open_detached(M.p, M.p, mac, L, D(nonce), D(key)); break;
+    }
+    if (r != 0) FAIL("%s: decrypting its own %zu-byte ciphertext returned %d", CN[c.cons], L, r);
+    for (size_t i = 0; i < ws.size(); i++) if (memcmp(M.p + ws[i], pts[i].data(), pts[i].size()) != 0) FAIL("%s over %zu bytes: decryption does not restore the plaintext at byte %zu", CN[c.cons], L, ws[i]);
+    return true;
+}
+void explore_giant(Ctx &ctx) {
+    init_once();
+    if (!ctx.thorough() || !giant::fast_build() || !giant::first_round()) { ctx.notes["giant_messages"] = "thorough tier, non-sanitizer build, first round only"; return; }
+    uint64_t idx = 0;
+    for (int cons : { CHACHA, CHACHA_IETF, XCHACHA, AESGCM, AEGIS128L, AEGIS256, SBOX_XSALSA, SBOX_XCHACHA }) {
+        uint64_t i = idx++;
+        if (ctx.worker != (int) (i % (uint64_t) std::min(ctx.nworkers, 2))) continue;       // two 4 GiB buffers at a time at most
+        GMCase c{ cons, ((size_t) 1 << 32) + 77, F_ALL };
+        exec_case(ctx, c, run_giant, mix64(cons, c.len), true);
+    }
+    ctx.notes["giant_messages_skipped_no_memory"] = std::to_string(g_giant_skipped);
 }
 
 bool replay(const KV &k, std::string &msg) {
+    if (k.gs("kind") == "giant") { GMCase c{ (int) k.gu("consi"), (size_t) k.gu("len"), (unsigned long) k.gu("mask") }; return run_giant(c, msg); }
     Case c; c.cons = -1;
     for (int i = 0; i < NCONS; i++) if (k.gs("cons") == CN[i]) c.cons = i;
     if (c.cons < 0) { msg = "unknown construction"; return false; }
@@ -295,4 +414,4 @@ bool replay(const KV &k, std::string &msg) {
 
 }  // namespace
 
-std::vector<Sub> vh_subs() { return { { "lengths", explore_lengths, replay }, { "large", explore_large, replay } }; }
+std::vector<Sub> vh_subs() { return { { "lengths", explore_lengths, replay }, { "large", explore_large, replay }, { "giant_messages", explore_giant, replay } }; }
